@@ -184,6 +184,12 @@ func (g *c04Gen) outValue(stage, ty string, w *[][]string) interface{} {
 		for k := g.r.Intn(2); k >= 0; k-- {
 			m[fmt.Sprintf("k%d", k)] = fs()
 		}
+		if g.r.Intn(3) == 0 {
+			// a key that is also the name of a member of the values: a
+			// projection m.x must still go through every value
+			m["x"] = fs()
+			g.feat("map_key_equals_member_name")
+		}
 		return m
 	case "string":
 		if g.r.Bool() {
